@@ -396,6 +396,21 @@ pub fn gen_c14(thorough: bool, seed: u64) -> Vec<Episode> {
             ops.push(json!({"op": "t_bin", "g": "or", "f": FORMS[(k + 1) % 4], "a": 0, "b": 1, "d": 4}));
             ops.push(json!({"op": "t_info", "a": 4}));
             ops.push(json!({"op": "t_tolut", "a": 4, "f": "ref"}));
+            // constants as operands: results must be simplified whatever the operands were built from
+            if k % 3 == 0 {
+                ops.push(json!({"op": "t_mk", "k": "sop", "c": "zero", "d": 5, "n": n}));
+                ops.push(json!({"op": "t_mk", "k": "sop", "c": "one", "d": 6, "n": n}));
+                ops.push(json!({"op": "t_bin", "g": "or", "f": FORMS[k % 4], "a": 5, "b": 0, "d": 7}));
+                ops.push(json!({"op": "t_info", "a": 7}));
+                ops.push(json!({"op": "t_bin", "g": "or", "f": FORMS[(k + 2) % 4], "a": 0, "b": 5, "d": 7}));
+                ops.push(json!({"op": "t_bin", "g": "and", "f": FORMS[(k + 1) % 4], "a": 6, "b": 0, "d": 7}));
+                ops.push(json!({"op": "t_info", "a": 7}));
+                ops.push(json!({"op": "t_bin", "g": "and", "f": FORMS[(k + 3) % 4], "a": 0, "b": 6, "d": 7}));
+                ops.push(json!({"op": "t_bin", "g": "or", "f": "ref_ref", "a": 0, "b": 0, "d": 7}));
+                ops.push(json!({"op": "t_bin", "g": "and", "f": "ref_ref", "a": 0, "b": 0, "d": 7}));
+                ops.push(json!({"op": "t_bin", "g": "or", "f": "val_val", "a": 0, "b": 6, "d": 7}));
+                ops.push(json!({"op": "t_info", "a": 7}));
+            }
             if ops.len() > 90 {
                 eps.push(ep(n, ops));
                 ops = Vec::new();
@@ -704,6 +719,37 @@ pub fn gen_c18(thorough: bool, seed: u64) -> Vec<Episode> {
             push(&mut eps, 3, vec![onset(3, f)], kind, t);
         }
     }
+    // several outputs sharing minterms, small on-sets (where sharing a non-prime cube can pay off):
+    // n = 3 with 2..3 outputs, n = 4 with 2..3 outputs; OR forms only need states over the on-sets
+    let chains = |n: usize, r: &mut StdRng, outs: usize, len: usize| -> Vec<Vec<usize>> {
+        let m0 = if r.gen() { dom(n) - 1 } else { r.gen_range(0..dom(n)) };
+        (0..outs)
+            .map(|_| {
+                let mut on = vec![m0];
+                let mut cur = m0;
+                for _ in 1..len {
+                    cur ^= 1 << r.gen_range(0..n);
+                    on.push(cur);
+                }
+                on.sort();
+                on.dedup();
+                on
+            })
+            .collect()
+    };
+    for n in [3usize, 4] {
+        for outs in [2usize, 3] {
+            let cnt = if thorough { 60 } else if outs == 2 { 16 } else { 8 };
+            for i in 0..cnt {
+                let len = if outs == 3 { 3 } else { 3 + i % 2 };
+                let fs = chains(n, &mut r, outs, len);
+                let kind = if i % 4 == 3 { "sopes" } else { "sop" };
+                push(&mut eps, n, fs, kind, triples[i % triples.len()]);
+            }
+        }
+    }
+    // the classic 3-output witness: f1 = a(b + c'), f2 = b(c + a'), f3 = c(a + b')
+    push(&mut eps, 3, vec![vec![1usize, 3, 7], vec![2, 6, 7], vec![4, 5, 7]], "sop", (1, 1, 1));
     if thorough {
         // two outputs at n = 3 (sampled)
         for _ in 0..40 {
